@@ -4,6 +4,11 @@ import json, os, subprocess
 ROOT = os.path.dirname(os.path.abspath(__file__))
 
 CHECKS = {
+ "C01": dict(
+   technique="runtime monitoring: seeded op-histories against the real store, shadow reference model (full-scan reverse lookups) compared after every operation + invariant checker over a hooked read-only dump of all reverse indices, id maps and position indices",
+   text="Thousands of short seeded histories of all mutating operations (nine selector kinds, four offset alignments, relative offsets, range-compressed complex selectors, strict/non-strict removals, protect_text) are applied to the real store; after every operation every lookup named in the property is compared with a documentation-derived shadow model that answers by full scan, and the hooked dump is checked for stale/missing/duplicate/unsorted index entries. Held only on the histories observed.",
+   note="Trusted: harness/src/model.rs (written from the documentation), the dump hook (read-only, add-only). Not generated: requests whose outcome the documentation leaves open, an annotation naming the same item twice, DataKey/AnnotationData selectors inside complex selectors.",
+   ref="5/C01"),
  "C13": dict(
    technique="runtime oracle monitor: exhaustive enumeration of range pairs / small set pairs against interval-arithmetic reference + algebraic laws, panics caught per call",
    text="Every ordered pair of ranges of several 7-codepoint texts (incl. zero-width, whitespace layouts) and every ordered pair of sets of size<=2 over a 10-range universe is run through the real test/test_set entry points for all 92 operator x modifier variants; each answer is compared with an interval-arithmetic reference and the converse/symmetry/implication/complement laws. Exhaustive within that bound, nothing beyond it.",
